@@ -321,7 +321,13 @@ class SchemaGen:
                     self.note("map:gor-required")
                     items.insert(self.rng.randrange(len(items) + 1), ("gor", a1, a2))
             if not gor and self.rng.random() < 0.4:
-                items.append(self.mentry(max(depth, 0), used, only=["wild"]))
+                w = self.mentry(max(depth, 0), used, only=["wild"])
+                if items and self.rng.random() < 0.3:
+                    # the table BEFORE some literal-keyed members: inside the checked shape for documents that lack those keys
+                    self.note("map:wild-before-literal")
+                    items.insert(self.rng.randrange(len(items)), w)
+                else:
+                    items.append(w)
             if not gor and self.o.cbor and self.rng.random() < 0.3:
                 # a wildcard over a key class disjoint from the text keys may stand anywhere
                 kt = self.rng.choice(["uint", "int", "bstr", "float", "float64"])
